@@ -86,6 +86,9 @@ def run_shard(shard, ctx, tier):
         for k in range(1, 4):
             for ls in itertools.combinations(range(len(LINES)), k):
                 guarded_check(mod, {'regions': regs, 'lines': list(ls)}, ctx)
+                if shard['nreg'] == 1 and k <= 2:
+                    for dt in ('int32', 'int64', 'float32'):      # detections held in integer / single-precision arrays (rounded to pixels)
+                        guarded_check(mod, {'regions': regs, 'lines': list(ls), 'dt': dt}, ctx)
 
 
 # ------------------------------------------------------------------ oracle on outputs
@@ -188,21 +191,30 @@ def check_regions(regions_out, inputs, ctx, K, desc, case, check_presence=True):
     return True
 
 
-def make_inputs(line_idx, heights=None):
+def make_inputs(line_idx, heights=None, dt=None):
     from pero_ocr.layout_engines.layout_helpers import baseline_to_textline
     bs = [np.asarray(line_points(i), dtype=np.float64) for i in line_idx]
-    return [(b, baseline_to_textline(b, heights or HEIGHTS)) for b in bs]
+    if dt is None:
+        return [(b, baseline_to_textline(b, heights or HEIGHTS)) for b in bs]
+    out = []
+    for b in bs:
+        b = np.round(b).astype(dt)
+        o = baseline_to_textline(b.astype(np.float64), heights or HEIGHTS)
+        out.append((b, np.round(o).astype(dt)))
+    return out
 
 
 def check_assign(case, ctx):
     from pero_ocr.core.layout import RegionLayout, PageLayout
     from pero_ocr.layout_engines.layout_helpers import assign_lines_to_regions
     regs = [RegionLayout(f'r{i}', np.asarray(REGIONS[i], dtype=np.float64)) for i in case['regions']]
-    inputs = make_inputs(case['lines'])
-    ctx.state((tuple(case['regions']), tuple(case['lines'])))
+    inputs = make_inputs(case['lines'], dt=case.get('dt'))
+    ctx.state((tuple(case['regions']), tuple(case['lines']), case.get('dt')))
+    if case.get('dt'):
+        ctx.tag('integer-or-float32-detections')
     out = assign_lines_to_regions([b for b, _ in inputs], [HEIGHTS] * len(inputs), [o for _, o in inputs], regs)
     ctx.executed()
-    desc = f'regions {[REGIONS[i] for i in case["regions"]]}, baselines {[LINES[i] for i in case["lines"]]}'
+    desc = f'regions {[REGIONS[i] for i in case["regions"]]}, baselines {[LINES[i] for i in case["lines"]]}' + (f' as {case["dt"]} arrays' if case.get('dt') else '')
     if not check_regions(out, inputs, ctx, f'{ID}/assign', desc, case):
         return
     n_lines = sum(len(r.lines) for r in out)
@@ -346,6 +358,6 @@ def describe(tier):
         'bounds': BOUNDS[tier], 'alphabets': {'regions': REGIONS, 'baselines': LINES, 'heights': HEIGHTS},
         'assumptions': ['invalid region polygons are judged against their convex hull', 'merged lines (MERGE_LINES) are only checked for containment and ids'],
         'min_nontrivial': 100,
-        'required_tags': ['several-regions-several-placed-lines', 'several-pieces', 'wholly-inside', 'extractor-pages-with-lines',
+        'required_tags': ['integer-or-float32-detections', 'several-regions-several-placed-lines', 'several-pieces', 'wholly-inside', 'extractor-pages-with-lines',
                           'merge-lines-coverage'],
     }
